@@ -921,7 +921,7 @@ VARIANTS += [
     dict(prop="C01", name="prf-report-takes-breakdown-from-value", expect="WIRE-prf|report-fields",
          edits=[dict(file=OPF, find="            value: input.value,\n            breakdown_key: input.breakdown_key,", replace="            breakdown_key: input.breakdown_key.clone(),\n            value: { let _ = input.value; Replicated::<V>::ZERO },")]),
     dict(prop="C01", name="prf-picker-mixes-in-record-id", expect="WIRE-prf|route-by-prf-value-only",
-         edits=[dict(file=OPF, find="        |ctx, _, report| report.match_key % ctx.shard_count(),", replace="        |ctx, rid, report| (report.match_key + u64::from(u32::from(rid) & 1)) % ctx.shard_count(),")]),
+         edits=[dict(file=OPF, find="        report_stream,\n        |ctx, _, report| report.match_key % ctx.shard_count(),", replace="        report_stream,\n        |ctx, rid, report| (report.match_key + u64::from(u32::from(rid) & 1)) % ctx.shard_count(),")]),
     dict(prop="C01", name="prf-zip-skips-first-row", expect="WIRE-prf|zip(prf values, the same rows)",
          edits=[dict(file=OPF, find="        .zip(stream::iter(input_rows))", replace="        .zip(stream::iter(input_rows).skip(0).filter(|_| std::future::ready(true)))")]),
 ]
@@ -1126,6 +1126,49 @@ VARIANTS += [
          edits=[dict(file="ipa-core/src/helpers/hashing.rs", find='    for x in input {\n        is_empty = false;\n        x.serialize(&mut buf);\n        sha.update(&buf);\n    }', replace='    for x in input {\n        x.serialize(&mut buf);\n        sha.update(&buf);\n        is_empty = false;\n    }')]),
 ]
 VARIANTS += [dict(v, prop="C05", name=v["name"] + "@C05") for v in VARIANTS if v["name"] in ("hash-skips-first-element", "hash-absorbs-buffer-prefix", "hash-loop-flag-after-update")]
+
+VARIANTS += [
+    dict(prop="C17", name="batch-count-rounds-up", expect=['PROGRESS', 'Batch:count-fits-contiguous'],
+         edits=[dict(file="ipa-core/src/helpers/transport/stream/input.rs", find='        let count = max(1, buf.contiguous_len() / T::Size::USIZE);', replace='        let count = max(1, buf.contiguous_len().div_ceil(T::Size::USIZE));')]),
+    dict(prop="C17", name="batch-count-capped", benign=True,
+         edits=[dict(file="ipa-core/src/helpers/transport/stream/input.rs", find='        let count = max(1, buf.contiguous_len() / T::Size::USIZE);', replace='        let count = max(1, buf.contiguous_len() / T::Size::USIZE).min(4096);')]),
+]
+
+VARIANTS += [
+    dict(prop="C16", name="total-second-declaration-ignored", expect=['TABLE-total', 'overwrite:Specified->Specified'],
+         edits=[dict(file="ipa-core/src/helpers/mod.rs", find='            (Self::Specified(_), Self::Indeterminate) => Self::Indeterminate,\n', replace='            (Self::Specified(_), Self::Indeterminate) => Self::Indeterminate,\n            (old @ Self::Specified(_), Self::Specified(_)) => *old,\n')]),
+    dict(prop="C16", name="total-second-declaration-wins", expect=['TABLE-total', 'overwrite:Specified->Specified'],
+         edits=[dict(file="ipa-core/src/helpers/mod.rs", find='            (Self::Specified(_), Self::Indeterminate) => Self::Indeterminate,\n', replace='            (Self::Specified(_), Self::Indeterminate) => Self::Indeterminate,\n            (Self::Specified(_), new @ Self::Specified(_)) => new,\n')]),
+    dict(prop="C16", name="total-indeterminate-can-be-specified", expect=['TABLE-total', 'overwrite:Indeterminate->Specified'],
+         edits=[dict(file="ipa-core/src/helpers/mod.rs", find='            (Self::Specified(_), Self::Indeterminate) => Self::Indeterminate,\n', replace='            (Self::Specified(_), Self::Indeterminate) => Self::Indeterminate,\n            (Self::Indeterminate, new @ Self::Specified(_)) => new,\n')]),
+    dict(prop="C16", name="batcher-total-replaced-unchecked", expect=['TABLE-total', 'set_total_records'],
+         edits=[dict(file="ipa-core/src/protocol/context/batcher.rs", find='        self.total_records = self.total_records.overwrite(total_records.into());', replace='        self.total_records = total_records.into();')]),
+    dict(prop="C16", name="total-arms-reordered", benign=True,
+         edits=[dict(file="ipa-core/src/helpers/mod.rs", find='            (Self::Unspecified, v) => v,\n            (_, Self::Unspecified) => panic!("TotalRecords needs a specific value for overwriting"),\n', replace='            (_, Self::Unspecified) if !matches!(self, Self::Unspecified) => {\n                panic!("TotalRecords needs a specific value for overwriting")\n            }\n            (Self::Unspecified, v) => v,\n')]),
+]
+
+VARIANTS += [
+    dict(prop="C16", name="first-batch-advances-once-after-drain", expect=['INDEX-sync', 'balance'],
+         edits=[dict(file="ipa-core/src/protocol/context/batcher.rs", find='                batch = self.batches.pop_front().unwrap();\n                self.first_batch += 1;\n                // Also remove any batches that completed out of order\n                while let Some(None) = self.batches.front() {\n                    self.batches.pop_front();\n                    self.first_batch += 1;\n                }\n', replace='                batch = self.batches.pop_front().unwrap();\n                // Also remove any batches that completed out of order\n                let completed = self.batches.iter().take_while(|b| b.is_none()).count();\n                self.batches.drain(..completed);\n                self.first_batch += 1;\n')]),
+    dict(prop="C16", name="first-batch-advances-by-drained-count", benign=True,
+         edits=[dict(file="ipa-core/src/protocol/context/batcher.rs", find='                batch = self.batches.pop_front().unwrap();\n                self.first_batch += 1;\n                // Also remove any batches that completed out of order\n                while let Some(None) = self.batches.front() {\n                    self.batches.pop_front();\n                    self.first_batch += 1;\n                }\n', replace='                batch = self.batches.pop_front().unwrap();\n                // Also remove any batches that completed out of order\n                let completed = self.batches.iter().take_while(|b| b.is_none()).count();\n                self.batches.drain(..completed);\n                self.first_batch += 1 + completed;\n')]),
+    dict(prop="C16", name="first-batch-not-advanced-for-out-of-order-slots", expect=['INDEX-sync', 'balance'],
+         edits=[dict(file="ipa-core/src/protocol/context/batcher.rs", find='                batch = self.batches.pop_front().unwrap();\n                self.first_batch += 1;\n                // Also remove any batches that completed out of order\n                while let Some(None) = self.batches.front() {\n                    self.batches.pop_front();\n                    self.first_batch += 1;\n                }\n', replace='                batch = self.batches.pop_front().unwrap();\n                self.first_batch += 1;\n                // Also remove any batches that completed out of order\n                while let Some(None) = self.batches.front() {\n                    self.batches.pop_front();\n                }\n')]),
+]
+VARIANTS += [dict(v, prop="C06", name=v["name"] + "@C06") for v in VARIANTS if v["name"] in ("first-batch-advances-once-after-drain", "first-batch-advances-by-drained-count")]
+
+VARIANTS += [
+    dict(prop="C03", name="boolean-array-mul-unproved", expect=['WHO-multiply', 'BooleanArrayMul<dzkp_malicious'],
+         edits=[dict(file="ipa-core/src/protocol/basics/mul/mod.rs", find='                use crate::protocol::basics::mul::dzkp_malicious::zkp_multiply;\n                zkp_multiply(ctx, record_id, a, b)\n', replace='                semi_honest_multiply(ctx, record_id, a, b)\n')]),
+    dict(prop="C03", name="boolean-array-mul-via-path", benign=True,
+         edits=[dict(file="ipa-core/src/protocol/basics/mul/mod.rs", find='                use crate::protocol::basics::mul::dzkp_malicious::zkp_multiply;\n                zkp_multiply(ctx, record_id, a, b)\n', replace='                crate::protocol::basics::mul::dzkp_malicious::zkp_multiply(ctx, record_id, a, b)\n')]),
+]
+VARIANTS += [dict(v, prop=q, name=v["name"] + "@" + q) for v in VARIANTS if v["name"] == "boolean-array-mul-unproved" for q in ("C02", "C07")]
+
+VARIANTS += [
+    dict(prop="C04", name="check-zero-opens-unchecked", expect=['unchecked-open'],
+         edits=[dict(file="ipa-core/src/protocol/basics/check_zero.rs", find='        &malicious_reveal(ctx.narrow(&Step::RevealR), record_id, None, &rv_share)\n', replace='        &crate::protocol::basics::reveal::semi_honest_reveal(ctx.narrow(&Step::RevealR), record_id, None, &rv_share)\n'), dict(file="ipa-core/src/protocol/basics/check_zero.rs", find='        basics::{malicious_reveal, mul::semi_honest_multiply, step::CheckZeroStep as Step},', replace='        basics::{mul::semi_honest_multiply, step::CheckZeroStep as Step},')]),
+]
 
 # rules shared between properties: the same edit must be reported under the other property too
 VARIANTS += [dict(v, prop="C05", name=v["name"] + "@C05") for v in VARIANTS
